@@ -47,6 +47,17 @@ func walk(f pager, limit uint64) M {
 		}
 		key = next
 	}
+	// a large page (limit above the default page size of 100) continued from a cursor: everything after the first entry
+	bigkey, bigres := []any{}, "na"
+	if es, next, _, err := f(&query.PageRequest{Limit: 1}); err == nil && len(next) > 0 && len(es) == 1 {
+		rest, next2, _, err2 := f(&query.PageRequest{Key: next, Limit: 1000})
+		if err2 != nil || len(next2) != 0 {
+			bigres = "err"
+		} else {
+			bigres, bigkey = "ok", rest
+		}
+	}
+	out["bigkey"], out["bigres"] = bigkey, bigres
 	var pagesO []any
 	totals := []any{}
 	okO := "ok"
